@@ -18,7 +18,7 @@ static void expect_same(Ctx &ctx, const char *oracle, const Digest &a, const Dig
 }
 
 void check_C06(Src &s, Ctx &ctx) {
-    SpecOpts so; so.cap = cfg().tier ? 1200 : 300;
+    SpecOpts so; so.cap = cfg().tier ? 450 : 300;
     GridState st; st.cap = so.cap; st.ctx = &ctx;
     st.spec = decode_spec(s, so); st.vm.decode(s);
     bool empty_grid = s.chance(1, 40);
